@@ -116,6 +116,8 @@ def generate(rng, tier):
         if style == 'text':
             segs = _walk(rng, target, planted, 5, True)
             cases.append({'target': target, 'style': 'text', 'text': '.'.join(segs), 'star': True})
+            if rng.random() < 0.1:
+                cases[-1]['strsub'] = True
         else:
             segs = _walk(rng, target, planted, 5, False)
             parts = []
@@ -161,10 +163,15 @@ class _LogDict(dict):
         return dict.__getitem__(self, k)
 
 
+class _StrSub(str):
+    pass
+
+
 def _spec_of(case):
     import glom
     if case['style'] == 'text':
-        return case['text']
+        # the same text as an instance of a str subclass takes the general (non-shortcut) route through Path.from_text
+        return _StrSub(case['text']) if case.get('strsub') else case['text']
     parts = []
     for p in case['parts']:
         if 'v' in p:
